@@ -192,8 +192,9 @@ def e2e_jobs(tier, rnd):
     jobs = []
     n = 4
     src = "import random\n" + "".join(f"v{i} = random.random()\n" for i in range(n))
-    def sonar_item(i, kind):
-        it = {"key": f"K{i}", "status": "OPEN" if kind == "issues" else "TO_REVIEW", "component": ("proj:code.py", "com.example:svc:code.py", "code.py")[i % 3], "message": "m", "textRange": {"startLine": i + 2, "endLine": i + 2, "startOffset": 5, "endOffset": 20}}
+    FNAMES = ("code.py", "tests/test_code.py", "conftest.py", "build/gen.py", "pkg/site-packages/code.py")      # where the reported file lives: tool-driven codemods have no default excludes
+    def sonar_item(i, kind, fname="code.py"):
+        it = {"key": f"K{i}", "status": "OPEN" if kind == "issues" else "TO_REVIEW", "component": ("proj:" + fname, "com.example:svc:" + fname, fname)[i % 3], "message": "m", "textRange": {"startLine": i + 2, "endLine": i + 2, "startOffset": 5, "endOffset": 20}}
         it["rule" if kind == "issues" or i % 2 else "ruleKey"] = "python:S2245"
         return it
     parts_all = []
@@ -204,9 +205,9 @@ def e2e_jobs(tier, rnd):
     for assign in picks:
         k = max(assign) + 1
         for kinds in ([("issues",) * k, ("hotspots",) * k, tuple(("issues", "hotspots")[j % 2] for j in range(k))] if tier != "quick" else [tuple(rnd.choice(("issues", "hotspots")) for _ in range(k))]):
-            docs = []
+            docs = []; fname = FNAMES[len(jobs) % len(FNAMES)]
             for j in range(k):
-                docs.append((kinds[j], {kinds[j]: [sonar_item(i, kinds[j]) for i in range(n) if assign[i] == j]}))
+                docs.append((kinds[j], {kinds[j]: [sonar_item(i, kinds[j], fname) for i in range(n) if assign[i] == j]}))
             for order in (list(itertools.permutations(range(k))) if tier != "quick" else [tuple(range(k)), tuple(reversed(range(k)))]):
                 rf = {}; issues = []; hot = []
                 for j in order:
@@ -215,7 +216,7 @@ def e2e_jobs(tier, rnd):
                 argv = ["{proj}", "--output", "{out}", "--codemod-include", "sonar:python/secure-random"]
                 if issues: argv += ["--sonar-issues-json", ",".join(issues)]
                 if hot: argv += ["--sonar-hotspots-json", ",".join(hot)]
-                jobs.append({"id": f"e2e|sonar|{assign}|{kinds}|{order}", "tool": "sonar", "n": n, "assign": assign, "kinds": kinds, "files": {"code.py": b64(src)}, "src": src, "result_files": rf, "argv": argv,
+                jobs.append({"id": f"e2e|sonar|{assign}|{kinds}|{order}", "tool": "sonar", "n": n, "assign": assign, "kinds": kinds, "files": {fname: b64(src)}, "fname": fname, "src": src, "result_files": rf, "argv": argv,
                              "monitors": {"snap": False, "pipe": True}, "marker": "random.random()"})
     # DefectDojo: several files
     dsrc = "import pickle\n" + "".join(f"r{i} = pickle.load(f{i})\n" for i in range(n))
@@ -248,7 +249,7 @@ def e2e_jobs(tier, rnd):
 def judge_mixed(job, run):
     v = []; st = collections.Counter(); nt = [job["id"]]
     w = {"case": job["id"], "runs_in_file": job["mixed"], "argv": job["argv"]}
-    after = unb(run["tree"]["code.py"][2:]).decode("utf-8", "replace")
+    after = unb(run["tree"][job.get("fname", "code.py")][2:]).decode("utf-8", "replace")
     st["e2e:sarif-mixed-runs"] += 1
     ev = [e for e in run["trace"] if e["k"] == "sarif_tools"]
     if ev:
@@ -268,7 +269,7 @@ def judge(job, r):
         if "codeql-minimal-region" in (job.get("mixed") or []) and "KeyError" in str(run["exc"]): key = "e2e-foreign-run-breaks-semgrep-reader"
         return [Violation("C12", key, f"rc={run['rc']} exc={run['exc']}", dict(w, log=run["log"][-800:]))], st, nt
     if job.get("mixed"): return judge_mixed(job, run)
-    after = unb(run["tree"]["code.py"][2:]).decode("utf-8", "replace")
+    after = unb(run["tree"][job.get("fname", "code.py")][2:]).decode("utf-8", "replace")
     unfixed = [i for i in range(job["n"]) if any(l.startswith((f"v{i} = ", f"r{i} = ")) and job["marker"] in l for l in after.splitlines())]
     nt.append(job["id"]); st["e2e:" + job["tool"]] += 1
     if unfixed:
